@@ -11,7 +11,7 @@
 (* (entry point x parser options x fetcher kind x import graph).           *)
 (***************************************************************************)
 EXTENDS SoupContract, IOUtils
-CONSTANTS MaxToks, Depths, PairContexts
+CONSTANTS MaxToks, Depths, PairContexts, MaxSelSoup, RunLens
 VARIABLE row
 
 Contexts == {"sheet", "after-charset", "import-prelude", "namespace-prelude", "media-prelude", "media-rules", "page-prelude", "page-block",
@@ -21,7 +21,7 @@ Contexts == {"sheet", "after-charset", "import-prelude", "namespace-prelude", "m
 Tokens == {"ident", "IDENT-and", "ident-important", "ident-inherit", "func", "url(", "var(", "calc(", "rgb(", "hsl(", "not(", "nth-child(", "expression(",
            "@charset-sp", "@charset", "@import", "@media", "@page", "@font-face", "@namespace", "@variables", "@top-left", "@x",
            "hash", "string", "uri", "number", "percentage", "dimension", "dimension-esc", "number-huge", "urange", "~=", "|=", "cdo", "cdc", "S", "comment",
-           "{", "}", "(", ")", "[", "]", ";", ":", ",", ".", "*", ">", "+", "!", "/", "=", "#", "@", "%", "&", "$", "-", "bs",
+           "{", "}", "(", ")", "[", "]", ";", ":", ",", ".", "*", "|", ">", "+", "!", "/", "=", "#", "@", "%", "&", "$", "-", "bs",
            "open-string", "open-comment", "open-url", "nonascii", "astral", "ctl", "nl"}
 \* the context automaton (total): where the parser is after token t in context c; "=" means "stays"
 Shift(c, t) ==
@@ -72,7 +72,7 @@ TokRows == {[kind |-> "tokens", ctx |-> c, toks |-> s, entry |-> "string"] : c \
                    s \in {x \in [1..2 -> Tokens] : MaxToks >= 2 /\ (x[1] \in SmallTokens \/ (MaxToks >= 3 /\ x[2] \in SmallTokens))}}
            \cup {[kind |-> "tokens", ctx |-> "sheet", toks |-> s, entry |-> "string"] : s \in {x \in [1..3 -> SmallTokens] : MaxToks >= 3}}
            \cup {[kind |-> "tokens", ctx |-> "style-attr", toks |-> s, entry |-> "style"] : s \in Seqs(2)}
-Openers == {"{", "(", "[", "func", "func-comma", "calc(", "calc-sum", "not(", "@media", "@x-block", "url(", "rgb(", "hsl(", "var(", "var-fallback", "paren-in-selector",
+Openers == {"{", "(", "[", "func", "func-comma", "calc(", "calc-sum", "not(", "@media", "@media-rule", "@x-block", "url(", "rgb(", "hsl(", "var(", "var-fallback", "paren-in-selector",
             "attr-in-not", "string-in-func", "comment"}
 NestRows == {[kind |-> "nest", opener |-> o, depth |-> d, ctx |-> c, close |-> cl, entry |-> "string"] :
                 o \in Openers, d \in Depths, c \in {"sheet", "decl-value", "selector", "media-rules"}, cl \in BOOLEAN}
@@ -97,7 +97,20 @@ CodecRows == {[kind |-> "config", entry |-> "string", graph |-> "none", fetch |-
 PropNames == IF "NAMES_FILE" \in DOMAIN IOEnv THEN ndJsonDeserialize(IOEnv.NAMES_FILE) ELSE <<>>
 BombRows == {[kind |-> "propvalue", name |-> PropNames[i].name, shape |-> sh, entry |-> "string"] :
                 i \in 1..Len(PropNames), sh \in {"long-ident-then-number", "many-idents", "many-numbers-then-ident", "many-strings-then-number", "nested-functions"}}
-Rows == TokRows \cup NestRows \cup ConfigRows \cup CodecRows \cup BombRows
+\* selector soup: every glued sequence of 3..5 of the tokens that make up (namespaced) simple selectors - '*|*|*' once made the
+\* selector parser split a name of three parts in two
+SelToks == {"*", "|", "ident", ".", ":"}
+SelSoupRows == {[kind |-> "tokens", ctx |-> c, toks |-> s, entry |-> "string", glue |-> TRUE] :
+                   c \in {"sheet", "not-arg"}, s \in UNION {[1..k -> SelToks] : k \in 3..MaxSelSoup}}
+\* long runs: a token opener followed by n characters of one class and an end that makes the token's regular expression fail late
+\* (nothing, a line break and a rule, junk) or succeed (the closer) - matchers that backtrack exponentially on a failing match
+\* show only here
+RunOpeners == {"url(", "url-dq", "url-sq", "dq", "sq", "comment", "ident", "hash", "number", "at", "func", "urange", "cdo", "attr-dq", "important", "bs"}
+RunBodies == {"letters", "digits", "spaces", "bs-pairs", "stars", "escaped-quotes", "nonascii", "hex-escapes", "dashes", "nl-escapes", "slashes", "dots"}
+RunEnds == {"eof", "newline-rule", "closer", "junk"}
+LongRunRows == {[kind |-> "longrun", opener |-> o, body |-> b, n |-> n, end |-> e, ctx |-> c, entry |-> "string"] :
+                   o \in RunOpeners, b \in RunBodies, n \in RunLens, e \in RunEnds, c \in {"sheet", "decl-value"}}
+Rows == TokRows \cup NestRows \cup ConfigRows \cup CodecRows \cup BombRows \cup SelSoupRows \cup LongRunRows
 Init == row \in Rows
 Next == UNCHANGED row
 Spec == Init /\ [][Next]_row
